@@ -497,6 +497,9 @@ def content12(pool, k, j):
         tags = ['gold', 'silver', 'bronze', 'tin', 'lead']
         d['x_info'] = {'level': n % 7, 'tags': [tags[n % 5], tags[(n // 5 + 1 + n) % 5]][:1 + n % 2],
                        'inner': {'codes': ['c%d' % (n % 4), 'k%d' % (n % 3)], 'note': 'n'}}
+    if e['id_n'] % 11 == 5 and isinstance(d.get('name'), str):
+        # a NAME that looks like a timestamp, spelled differently from version to version: it is text, and compares as text
+        d['name'] = ['2021-03-04T05:06:07Z', '2021-03-04T05:06:07.000Z', '2021-03-04T05:06:07.0Z', '2021-03-04T05:06:08Z'][j % 4]
     if e.get('granular') and 'labels' in d:
         d['granular_markings'] = [{'marking_ref': C.TLP['amber'], 'selectors': ['labels']},
                                   {'marking_ref': C.STATEMENT_MARKINGS[0], 'selectors': ['type', 'labels.[0]']}]
